@@ -83,7 +83,7 @@ Section L.
   Notation set_value := (set_value F lvalidate lto_python ldefault lcallable lflag vrun).
   Notation load_keys := (load_keys F lvalidate lto_python ldefault lcallable lflag vrun).
   Notation load_tree := (load_tree F lvalidate lto_python ldefault lcallable lflag vrun).
-  Notation build_cfg := (build_cfg F ldefault lcallable).
+  Notation build_cfg := (build_cfg F lvalidate lto_python ldefault lcallable lflag vrun).
   Notation validate_errs := (validate_errs F lvalidate lflag vrun).
   Notation validate_raise := (validate_raise F lvalidate lflag vrun).
   Notation feature_enabled := (feature_enabled F lflag).
@@ -119,18 +119,18 @@ Section L.
     rewrite G. reflexivity.
   Qed.
 
-  Lemma same_list_unfold : forall req vs fs la lb,
-    same_slot (NCfgList req vs fs) (VList la) (VList lb) <-> Forall2 (same_cfg fs) la lb.
+  Lemma same_list_unfold : forall req vs fs fsq la lb,
+    same_slot (NCfgList req vs fs fsq) (VList la) (VList lb) <-> Forall2 (same_cfg fs) la lb.
   Proof.
-    intros req vs fs. induction la as [|x la IH]; intros [|y lb].
+    intros req vs fs fsq. induction la as [|x la IH]; intros [|y lb].
     - split; intro; [constructor | exact I].
     - split; intro H; [destruct H | inversion H].
     - split; intro H; [destruct H | inversion H].
     - specialize (IH lb). split.
-      + intro H. change (same_slot (NSub false [] fs) (VCfg x) (VCfg y) /\ same_slot (NCfgList req vs fs) (VList la) (VList lb)) in H.
+      + intro H. change (same_slot (NSub false [] fs) (VCfg x) (VCfg y) /\ same_slot (NCfgList req vs fs fsq) (VList la) (VList lb)) in H.
         destruct H as [H1 H2]. constructor; [apply same_sub_unfold in H1; exact H1 | apply IH; exact H2].
       + intro H. inversion H; subst.
-        change (same_slot (NSub false [] fs) (VCfg x) (VCfg y) /\ same_slot (NCfgList req vs fs) (VList la) (VList lb)).
+        change (same_slot (NSub false [] fs) (VCfg x) (VCfg y) /\ same_slot (NCfgList req vs fs fsq) (VList la) (VList lb)).
         split; [eapply same_sub_unfold; eassumption | apply IH; assumption].
   Qed.
 
@@ -153,10 +153,10 @@ Section L.
     rewrite G. reflexivity.
   Qed.
 
-  Lemma valid_list_unfold : forall req vs fs l,
-    valid_slot (NCfgList req vs fs) (VList l) <-> (req = true -> l <> []) /\ Forall (valid_cfg false vs fs) l.
+  Lemma valid_list_unfold : forall req vs fs fsq l,
+    valid_slot (NCfgList req vs fs fsq) (VList l) <-> (req = true -> l <> []) /\ Forall (valid_cfg false vs fs) l.
   Proof.
-    intros req vs fs l.
+    intros req vs fs fsq l.
     assert (G : forall l0 : list cfg,
       (fix items (l1 : list cfg) : Prop :=
          match l1 with [] => True | it :: r => valid_slot (NSub false vs fs) (VCfg it) /\ items r end) l0
@@ -212,8 +212,8 @@ Section L.
         end
     end.
 
-  Lemma tree_slot_list : forall mask req vs fs p l,
-    tree_slot mask (NCfgList req vs fs) p (VList l) =
+  Lemma tree_slot_list : forall mask req vs fs fsq p l,
+    tree_slot mask (NCfgList req vs fs fsq) p (VList l) =
       match tree_items mask fs p l 0 with Ok ts => Ok (PList 0 ts) | Err e => Err e | Unmodelled => Unmodelled end.
   Proof.
     intros. cbn [Config.tree_slot].
@@ -303,7 +303,7 @@ Section L.
     rewrite Forall_forall in Hf. specialize (Hf _ Hin). unfold valid_pair in Hf. cbn [fst snd c_data] in Hf.
     pose proof (fsize_in F _ _ _ Hin) as Hsz.
     cbn [field_errs]. destruct (dget k d) as [v'|]; [|destruct Hf].
-    destruct nd' as [f|d1 v1 f1|req v1 f1].
+    destruct nd' as [f|d1 v1 f1|req v1 f1 f1q].
     - destruct v' as [x| |]; try (destruct Hf; fail). cbn [Roundtrip.valid_slot] in Hf. rewrite Hf. reflexivity.
     - destruct v' as [|c0|]; try (destruct Hf; fail). apply valid_sub_unfold in Hf.
       rewrite (IH d1 v1 f1); [reflexivity | rewrite nsize_sub in Hsz; lia | exact Hf].
@@ -314,7 +314,7 @@ Section L.
         { destruct req; [|reflexivity]. destruct l; [exfalso; apply Hreq; reflexivity | reflexivity]. }
         rewrite Hn0. rewrite validate_errs_list. rewrite items_errs_nil_of; [reflexivity|].
         intros it Hit q. rewrite Forall_forall in Hl. apply (IH false v1 f1); [|apply Hl; exact Hit].
-        change (nsize F (NCfgList req v1 f1)) with (nsize F (NSub false v1 f1)) in Hsz. rewrite nsize_sub in Hsz. lia.
+        change (nsize F (NCfgList req v1 f1 f1q)) with (nsize F (NSub false v1 f1)) in Hsz. rewrite nsize_sub in Hsz. lia.
   Qed.
 
   Lemma valid_validates : forall dyn vs fs c, valid_cfg dyn vs fs c -> forall p, validate_errs (NSub dyn vs fs) p (VCfg c) = [].
@@ -341,7 +341,7 @@ Section L.
   Proof.
     intros ca cb. induction fs as [|[k nd] fs IH]; intro H; [reflexivity|].
     inversion H as [|? ? H1 H2]; subst. unfold Config.feature_enabled in *. cbn [forallb]. rewrite (IH H2). f_equal.
-    destruct nd as [f|d1 v1 f1|r1 v1 f1]; try reflexivity. destruct (lflag f); [|reflexivity].
+    destruct nd as [f|d1 v1 f1|r1 v1 f1 f1q]; try reflexivity. destruct (lflag f); [|reflexivity].
     unfold slot_pair in H1. cbn [fst snd] in H1.
     destruct (dget k (c_data ca)) as [va|]; [|destruct H1]. destruct (dget k (c_data cb)) as [vb|]; [|destruct H1].
     destruct va, vb; cbn [Roundtrip.same_slot] in H1; try (destruct H1; fail). subst. reflexivity.
@@ -414,7 +414,7 @@ Section L.
       load_one k t w pre cj fs dyn = (w', store cj k va, OOk) /\ same_slot nd va v /\ valid_slot nd va.
   Proof.
     intros n HRT nd v Hsz Hv k fs dyn Hf p1 pre w cj Hdy.
-    destruct nd as [f|d' vs' fs'|req vs' fs'].
+    destruct nd as [f|d' vs' fs'|req vs' fs' fs'q].
     - destruct v as [x| |]; try (destruct Hv; fail). cbn [Roundtrip.valid_slot] in Hv.
       destruct (leaf_roundtrip f x Hv) as (b & b' & Hb & Hp & Hv').
       exists b, w, (VLeaf x). split; [|split; [|split]].
@@ -438,10 +438,10 @@ Section L.
         * reflexivity.
         * unfold load_one. rewrite Hf. rewrite set_value_unfold. unfold set_value_body. rewrite Hf. reflexivity.
         * reflexivity.
-        * apply (proj2 (valid_list_unfold _ _ _ _)). split; [intro; discriminate | constructor].
+        * apply (proj2 (valid_list_unfold _ _ _ _ _)). split; [intro; discriminate | constructor].
       + apply valid_list_unfold in Hv. destruct Hv as [Hreq Hl].
         assert (Hs' : (fsize F fs' < n)%nat).
-        { change (nsize F (NCfgList req vs' fs')) with (nsize F (NSub false vs' fs')) in Hsz. rewrite nsize_sub in Hsz. lia. }
+        { change (nsize F (NCfgList req vs' fs' fs'q)) with (nsize F (NSub false vs' fs')) in Hsz. rewrite nsize_sub in Hsz. lia. }
         destruct (items_rt n HRT vs' fs' Hs' p1 (path_join pre k) l Hl 0 0 w []) as (ts & w' & l' & Hts & Hci & Hs2 & Hv2).
         exists (PList 0 ts), w', (VList l'). split; [|split; [|split]].
         * rewrite tree_slot_list, Hts. reflexivity.
@@ -450,8 +450,8 @@ Section L.
           assert (Hn : req && is_nil l' = false).
           { destruct req; [|reflexivity]. destruct l'; [|reflexivity]. inversion Hs2; subst. exfalso. apply Hreq; reflexivity. }
           rewrite Hn. reflexivity.
-        * apply (proj2 (same_list_unfold _ _ _ _ _)). exact Hs2.
-        * apply (proj2 (valid_list_unfold _ _ _ _)). split; [|exact Hv2]. intros Hr Hnil. subst l'. inversion Hs2; subst. apply Hreq; auto.
+        * apply (proj2 (same_list_unfold _ _ _ _ _ _)). exact Hs2.
+        * apply (proj2 (valid_list_unfold _ _ _ _ _)). split; [|exact Hv2]. intros Hr Hnil. subst l'. inversion Hs2; subst. apply Hreq; auto.
   Qed.
 
   Lemma fields_loop : forall n, RT n -> forall dyn fs c pre1 pre2, NoDup (map fst fs) ->
@@ -541,7 +541,7 @@ Section L.
     intros pre1 pre2 w w0 c0 Hb.
     destruct Hv as (Htidy & Hnd & Hf & Hvr). destruct Htidy as (Hdn & Hdk & Hyn & Hyv & Hyd).
     assert (Hc0 : c_dyn c0 = [] /\ map fst (c_data c0) = map fst fs).
-    { unfold Config.build_cfg in Hb. destruct (build_fields F ldefault lcallable _ fs) as [w1 d] eqn:E. inversion Hb; subst.
+    { unfold Config.build_cfg in Hb. destruct (build_fields F lvalidate lto_python ldefault lcallable lflag vrun _ fs) as [w1 d] eqn:E. inversion Hb; subst.
       cbn [c_dyn c_data]. split; [reflexivity | eapply build_fields_keys; eauto]. }
     destruct Hc0 as [Hc0d Hc0k].
     assert (Hszs : Forall (fun kn => (nsize F (snd kn) <= n)%nat) fs).
@@ -619,14 +619,14 @@ Section L.
     rewrite G. reflexivity.
   Qed.
 
-  Lemma normal_list_unfold : forall req vs fs l,
-    normal_slot (NCfgList req vs fs) (VList l) <-> Forall (normal_cfg false fs) l.
+  Lemma normal_list_unfold : forall req vs fs fsq l,
+    normal_slot (NCfgList req vs fs fsq) (VList l) <-> Forall (normal_cfg false fs) l.
   Proof.
-    intros req vs fs. induction l as [|it l IH]; [split; intro; [constructor | exact I]|]. split.
-    - intro H. change (normal_slot (NSub false vs fs) (VCfg it) /\ normal_slot (NCfgList req vs fs) (VList l)) in H.
+    intros req vs fs fsq. induction l as [|it l IH]; [split; intro; [constructor | exact I]|]. split.
+    - intro H. change (normal_slot (NSub false vs fs) (VCfg it) /\ normal_slot (NCfgList req vs fs fsq) (VList l)) in H.
       destruct H as [H1 H3]. constructor; [apply normal_sub_unfold in H1; exact H1 | apply IH; exact H3].
     - intro H. inversion H as [|? ? H1 H3]; subst.
-      change (normal_slot (NSub false vs fs) (VCfg it) /\ normal_slot (NCfgList req vs fs) (VList l)).
+      change (normal_slot (NSub false vs fs) (VCfg it) /\ normal_slot (NCfgList req vs fs fsq) (VList l)).
       split; [apply (proj2 (normal_sub_unfold _ _ _ _)); exact H1 | apply IH; exact H3].
   Qed.
 
@@ -640,10 +640,10 @@ Section L.
     intros. cbn [Roundtrip.has_disabled]. f_equal.
     induction fs as [|[k nd'] l IH]; [reflexivity|]. cbn [existsb]. rewrite <- IH. reflexivity.
   Qed.
-  Lemma dis_list_unfold : forall req vs fs l,
-    has_disabled (NCfgList req vs fs) (VList l) = existsb (fun it => has_disabled (NSub false [] fs) (VCfg it)) l.
+  Lemma dis_list_unfold : forall req vs fs fsq l,
+    has_disabled (NCfgList req vs fs fsq) (VList l) = existsb (fun it => has_disabled (NSub false [] fs) (VCfg it)) l.
   Proof.
-    intros req vs fs. induction l as [|it l IH]; [reflexivity|]. cbn [existsb]. rewrite <- IH. reflexivity.
+    intros req vs fs fsq. induction l as [|it l IH]; [reflexivity|]. cbn [existsb]. rewrite <- IH. reflexivity.
   Qed.
 
   Lemma existsb_false : forall {A} (f : A -> bool) l, existsb f l = false -> forall x, In x l -> f x = false.
@@ -665,7 +665,7 @@ Section L.
     pose proof (existsb_false _ _ Hex _ Hin) as Hdk. unfold dis_pair in Hdk. unfold normal_pair in Hf. unfold valid_pair.
     cbn [fst snd c_data] in *. pose proof (fsize_in F _ _ _ Hin) as Hs.
     destruct (dget k d) as [v'|] eqn:Hg; [|destruct Hf].
-    destruct nd as [f|d1 v1 f1|req v1 f1].
+    destruct nd as [f|d1 v1 f1|req v1 f1 f1q].
     - destruct v' as [x| |]; try (destruct Hf; fail). cbn [Roundtrip.normal_slot] in Hf. cbn [Roundtrip.valid_slot].
       destruct Hf as [Hf|[e He]]; [exact Hf|]. exfalso. exact (M1 k f x Hin Hg e He).
     - destruct v' as [|sub|]; try (destruct Hf; fail). apply normal_sub_unfold in Hf.
@@ -673,15 +673,15 @@ Section L.
       apply (IH d1 v1 f1 ltac:(rewrite nsize_sub in Hs; lia) sub (path_join p k) Hf); [eapply M3; eauto | exact Hdk].
     - destruct v' as [x| |l]; try (destruct Hf; fail).
       + destruct x; try (destruct Hf; fail). cbn [Roundtrip.valid_slot].
-        destruct req; [|reflexivity]. exfalso. destruct (M2 k true v1 f1 Hin eq_refl) as [H1 _]. apply H1. exact Hg.
-      + apply (proj2 (valid_list_unfold _ _ _ _)). split.
-        * intros Hr Hl. subst. destruct (M2 k true v1 f1 Hin eq_refl) as [_ H2]. apply H2. exact Hg.
+        destruct req; [|reflexivity]. exfalso. destruct (M2 k true v1 f1 _ Hin eq_refl) as [H1 _]. apply H1. exact Hg.
+      + apply (proj2 (valid_list_unfold _ _ _ _ _)). split.
+        * intros Hr Hl. subst. destruct (M2 k true v1 f1 _ Hin eq_refl) as [_ H2]. apply H2. exact Hg.
         * apply normal_list_unfold in Hf. rewrite dis_list_unfold in Hdk.
           apply Forall_forall. intros it Hit. rewrite Forall_forall in Hf. pose proof (Hf _ Hit) as Hn1.
           (* since the repair of F50: whole-configuration validation found nothing inside the items either *)
-          destruct (items_errs_nil_in _ _ _ _ _ (Mi k req v1 f1 l Hin Hg) it Hit) as [j Hn2].
+          destruct (items_errs_nil_in _ _ _ _ _ (Mi k req v1 f1 _ l Hin Hg) it Hit) as [j Hn2].
           assert (Hs' : (fsize F f1 < n)%nat).
-          { change (nsize F (NCfgList req v1 f1)) with (nsize F (NSub false v1 f1)) in Hs. rewrite nsize_sub in Hs. lia. }
+          { change (nsize F (NCfgList req v1 f1 f1q)) with (nsize F (NSub false v1 f1)) in Hs. rewrite nsize_sub in Hs. lia. }
           apply (IH false v1 f1 Hs' it _ Hn1 Hn2).
           pose proof (existsb_false _ _ Hdk _ Hit) as Hd2. cbv beta in Hd2. rewrite dis_sub_unfold in *. exact Hd2.
   Qed.
@@ -725,9 +725,9 @@ Section L.
     intros. cbn [Roundtrip.dyn_plain]. unfold dynp_here. f_equal.
     induction fs as [|[k nd'] l IH]; [reflexivity|]. cbn [forallb]. rewrite <- IH. reflexivity.
   Qed.
-  Lemma dynp_list_unfold : forall req vs fs l,
-    dyn_plain (NCfgList req vs fs) (VList l) = forallb (fun it => dyn_plain (NSub false [] fs) (VCfg it)) l.
-  Proof. intros req vs fs. induction l as [|it l IH]; [reflexivity|]. cbn [forallb]. rewrite <- IH. reflexivity. Qed.
+  Lemma dynp_list_unfold : forall req vs fs fsq l,
+    dyn_plain (NCfgList req vs fs fsq) (VList l) = forallb (fun it => dyn_plain (NSub false [] fs) (VCfg it)) l.
+  Proof. intros req vs fs fsq. induction l as [|it l IH]; [reflexivity|]. cbn [forallb]. rewrite <- IH. reflexivity. Qed.
 
   (* what a field renders is plain data (C05: to_basic yields JSON-like values) *)
   Hypothesis leaf_basic_plain : forall f x b, lto_basic f x = Ok b -> plain_data b = true.
@@ -768,7 +768,7 @@ Section L.
   Lemma PL_all : forall n, PL n.
   Proof.
     induction n as [|n IH]; intros nd Hsz v p t Ht Hd; [destruct nd; cbn [nsize] in Hsz; lia|].
-    destruct nd as [f|d1 v1 f1|req v1 f1].
+    destruct nd as [f|d1 v1 f1|req v1 f1 f1q].
     - destruct v as [x| |]; try discriminate. cbn [Config.tree_slot] in Ht.
       destruct (lto_basic f x) eqn:E; try discriminate. inversion Ht; subst. eapply leaf_basic_plain; eauto.
     - destruct v as [|c|]; try discriminate. rewrite tree_slot_sub in Ht. rewrite dynp_sub_unfold in Hd.
@@ -778,7 +778,7 @@ Section L.
       + rewrite tree_slot_list in Ht. rewrite dynp_list_unfold in Hd.
         destruct (tree_items None f1 p l 0) as [ts| |] eqn:E; try discriminate. inversion Ht; subst. rewrite plain_list.
         assert (Hs' : (fsize F f1 <= n)%nat).
-        { change (nsize F (NCfgList req v1 f1)) with (nsize F (NSub false v1 f1)) in Hsz. rewrite nsize_sub in Hsz. lia. }
+        { change (nsize F (NCfgList req v1 f1 f1q)) with (nsize F (NSub false v1 f1)) in Hsz. rewrite nsize_sub in Hsz. lia. }
         clear Ht. revert ts E Hd. generalize 0. induction l as [|it l IHl]; intros i ts E Hd; cbn [tree_items] in E.
         * inversion E; reflexivity.
         * cbn [forallb] in Hd. apply andb_true_iff in Hd. destruct Hd as [Hd1 Hd2].
@@ -836,7 +836,7 @@ Proof.
 Qed.
 
 Theorem inst_tree_roundtrip : forall vt dyn vs fs c, deep_valid leaf lvalidate lflag (vrun vt) dyn vs fs c ->
-  forall w w0 fresh, build_cfg leaf ldefault l_callable w fs = (w0, fresh) ->
+  forall w w0 fresh, build_cfg leaf lvalidate lto_python ldefault l_callable lflag (vrun vt) w fs = (w0, fresh) ->
   exists t w' c', to_tree leaf lto_basic l_sensitive py_strlen None fs c = Ok t /\
     load_tree leaf lvalidate lto_python ldefault l_callable lflag (vrun vt) t true w0 [] fresh dyn vs fs = (w', c', OOk) /\
     same_values leaf fs c' c /\ deep_valid leaf lvalidate lflag (vrun vt) dyn vs fs c'.
@@ -856,9 +856,9 @@ Definition rt_fs : list (str * node leaf) :=
   [(sa "n", NLeaf (rt_mk (LInt (Some 1%Z) (Some 100%Z)) false (PInt 3)));
    (sa "s", NLeaf (rt_mk (LStr (Some 2%nat) None false false) true (PStr (sa "abc"))));
    (sa "sub", NSub false [] [(sa "a", NLeaf (rt_mk (LInt None (Some 20%Z)) false (PInt 5)))]);
-   (sa "rows", NCfgList false [] [(sa "v", NLeaf (rt_mk (LInt None None) true PNone))])].
-Definition rt_root : cfg := snd (build_cfg leaf ldefault l_callable w0 rt_fs).
-Definition rt_w : world := fst (build_cfg leaf ldefault l_callable w0 rt_fs).
+   (sa "rows", NCfgList false [] [(sa "v", NLeaf (rt_mk (LInt None None) true PNone))] None)].
+Definition rt_root : cfg := snd (build_cfg leaf lvalidate lto_python ldefault l_callable lflag (vrun []) w0 rt_fs).
+Definition rt_w : world := fst (build_cfg leaf lvalidate lto_python ldefault l_callable lflag (vrun []) w0 rt_fs).
 
 Ltac solve_notin := cbn; intuition discriminate.
 Ltac solve_nodup := match goal with |- NoDup _ => repeat (constructor; [solve_notin|]); constructor end.
@@ -872,7 +872,7 @@ Proof. solve_valid. Qed.
 Example rt_root_roundtrip :
   exists t c', to_tree leaf lto_basic l_sensitive py_strlen None rt_fs rt_root = Ok t
     /\ snd (fst (load_tree leaf lvalidate lto_python ldefault l_callable lflag (vrun []) t true rt_w []
-                   (snd (build_cfg leaf ldefault l_callable rt_w rt_fs)) false [] rt_fs)) = c'
+                   (snd (build_cfg leaf lvalidate lto_python ldefault l_callable lflag (vrun []) rt_w rt_fs)) false [] rt_fs)) = c'
     /\ dget (sa "rows") (c_data rt_root) = Some (VLeaf PNone)
     /\ dget (sa "rows") (c_data c') = Some (VList [])
     /\ same_valuesb leaf rt_fs c' rt_root = true.
@@ -888,8 +888,8 @@ Definition f36_fs : list (str * node leaf) :=
   [(sa "x", NLeaf (rt_mk (LInt None None) false (PInt 1)));
    (sa "sub", NSub false [] [(sa "enabled", NLeaf (rt_mk LFlag false (PBool false)));
                              (sa "need", NLeaf (rt_mk (LInt None None) true PNone))])].
-Definition f36_c : cfg := snd (build_cfg leaf ldefault l_callable w0 f36_fs).
-Definition f36_w : world := fst (build_cfg leaf ldefault l_callable w0 f36_fs).
+Definition f36_c : cfg := snd (build_cfg leaf lvalidate lto_python ldefault l_callable lflag (vrun []) w0 f36_fs).
+Definition f36_w : world := fst (build_cfg leaf lvalidate lto_python ldefault l_callable lflag (vrun []) w0 f36_fs).
 Definition f36_tree : pyval :=
   PDict 0 [(PStr (sa "x"), PInt 1);
            (PStr (sa "sub"), PDict 0 [(PStr (sa "enabled"), PBool false); (PStr (sa "need"), PNone)])].
@@ -900,7 +900,7 @@ Theorem roundtrip_refuted_F36 :
   /\ known_F36 leaf lflag f36_fs f36_c = true
   /\ to_tree leaf lto_basic l_sensitive py_strlen None f36_fs f36_c = Ok f36_tree
   /\ snd (load_tree leaf lvalidate lto_python ldefault l_callable lflag (vrun []) f36_tree true f36_w []
-            (snd (build_cfg leaf ldefault l_callable f36_w f36_fs)) false [] f36_fs) = OErr (EValidation (sa "sub.need")).
+            (snd (build_cfg leaf lvalidate lto_python ldefault l_callable lflag (vrun []) f36_w f36_fs)) false [] f36_fs) = OErr (EValidation (sa "sub.need")).
 Proof.
   split; [vm_compute; reflexivity|]. split.
   - unfold Normal. cbn. repeat split; intros; cbn in *; try solve_nodup; try contradiction; try assumption; try (left; assumption);
@@ -913,16 +913,16 @@ Qed.
    is no longer a valid state: validate() reports "items[0].need".  (Its rendered tree is still rejected by load_tree,
    consistently.)  Before the repair this was the witness roundtrip_refuted_stale_item. *)
 Definition f50_fs : list (str * node leaf) :=
-  [(sa "items", NCfgList false [] [(sa "need", NLeaf (rt_mk (LInt None None) true PNone))])].
+  [(sa "items", NCfgList false [] [(sa "need", NLeaf (rt_mk (LInt None None) true PNone))] None)].
 Definition f50_c : cfg := Cfg 0 [(sa "items", VList [Cfg 1 [(sa "need", VLeaf PNone)] [sa "need"] []])] [] [].
 Definition f50_tree : pyval := PDict 0 [(PStr (sa "items"), PList 0 [PDict 0 [(PStr (sa "need"), PNone)]])].
 
 Theorem stale_item_rejected :
   (* reached by public operations: constructor keyword, then reset_value on the item *)
-  run_roundtrip (Some ([], false, [], f50_fs, [(sa "items", PList 0 [PDict 0 [(PStr (sa "need"), PInt 1)]])],
-                       [([PItem (sa "items") 0], CReset (sa "need"))]))
+  run_roundtrip (Some ([], false, [], f50_fs, [(sa "items", KV (PList 0 [PDict 0 [(PStr (sa "need"), PInt 1)]]))],
+                       [([PItem (sa "items") 0], XOp (CReset (sa "need")))]))
     = PTuple [o_str "ok"; o_cfg' f50_c; o_res (Ok f50_tree); o_oc (OErr (EValidation (sa "items[0].need")));
-              o_cfg' (snd (build_cfg leaf ldefault l_callable {| w_next := 2; w_calls := 0 |} f50_fs)); PBool false]
+              o_cfg' (snd (build_cfg leaf lvalidate lto_python ldefault l_callable lflag (vrun []) {| w_next := 2; w_calls := 0 |} f50_fs)); PBool false]
   /\ validate_errs leaf lvalidate lflag (vrun []) (NSub false [] f50_fs) [] (VCfg f50_c) = [EValidation (sa "items[0].need")]
   /\ Normal leaf lvalidate false f50_fs f50_c
   /\ known_F36 leaf lflag f50_fs f50_c = false.
@@ -991,17 +991,17 @@ Section B.
         apply IH; [pose proof (fsize_in F _ _ _ Hin); lia | exact H1].
       - unfold dynb. rewrite H2, strs_eqb_refl. cbn [andb]. apply forallb_forall. intros k Hk.
         rewrite Forall_forall in H3. destruct (H3 _ Hk) as [x [Ha Hb]]. rewrite Ha, Hb. apply pyval_eqb_refl. }
-    destruct nd as [f|d1 v1 f1|req v1 f1].
+    destruct nd as [f|d1 v1 f1|req v1 f1 f1q].
     - destruct a, b; cbn [Roundtrip.same_slot] in H; try (destruct H; fail). subst. cbn [Roundtrip.same_slotb]. apply pyval_eqb_refl.
     - destruct a as [xa|ca|la], b as [xb|cb|lb]; try (cbn [Roundtrip.same_slot] in H; destruct H; fail).
       apply (proj1 (same_sub_unfold F d1 v1 f1 ca cb)) in H. rewrite sameb_sub_unfold. apply Hcfg; [rewrite nsize_sub in Hsz; lia | exact H].
     - assert (Hs' : (fsize F f1 <= n)%nat).
-      { change (nsize F (NCfgList req v1 f1)) with (nsize F (NSub false v1 f1)) in Hsz. rewrite nsize_sub in Hsz. lia. }
+      { change (nsize F (NCfgList req v1 f1 f1q)) with (nsize F (NSub false v1 f1)) in Hsz. rewrite nsize_sub in Hsz. lia. }
       destruct a as [x|ca|la], b as [y|cb|lb]; try (cbn [Roundtrip.same_slot] in H; destruct H; fail).
       + cbn [Roundtrip.same_slot] in H. destruct H as [-> ->]. reflexivity.
       + cbn [Roundtrip.same_slot] in H. destruct y; try (destruct H; fail). subst la. reflexivity.
-      + apply (proj1 (same_list_unfold F req v1 f1 la lb)) in H. revert lb H. induction la as [|xa la IHl]; intros [|yb lb] H; inversion H; subst; [reflexivity|].
-        change (same_slotb (NSub false [] f1) (VCfg xa) (VCfg yb) && same_slotb (NCfgList req v1 f1) (VList la) (VList lb) = true).
+      + apply (proj1 (same_list_unfold F req v1 f1 f1q la lb)) in H. revert lb H. induction la as [|xa la IHl]; intros [|yb lb] H; inversion H; subst; [reflexivity|].
+        change (same_slotb (NSub false [] f1) (VCfg xa) (VCfg yb) && same_slotb (NCfgList req v1 f1 f1q) (VList la) (VList lb) = true).
         rewrite sameb_sub_unfold, Hcfg by assumption. cbn [andb]. apply IHl. assumption.
   Qed.
 
